@@ -416,6 +416,45 @@ def library_outcome(cnfgen, cs):
         return ('exc', type(e).__name__ + ': ' + str(e)[:120])
 
 
+def dimacs_judge(text):
+    """independent reading of a DIMACS CNF text from the format description (used only to classify a disagreement):
+    (n, clauses) or None when the text is not a well-formed file"""
+    n = m = None
+    cur, cls = [], []
+    for raw in text.split('\n'):
+        ln = raw.strip()
+        if not ln or ln[0] == 'c':
+            continue
+        if ln[0] == 'p':
+            t = ln.split()
+            if n is not None or len(t) != 4:
+                return None
+            try:
+                n, m = int(t[2]), int(t[3])
+            except ValueError:
+                return None
+            if n < 0 or m < 0:
+                return None
+            continue
+        if n is None:
+            return None
+        for tok in ln.split():
+            try:
+                v = int(tok)
+            except ValueError:
+                return None
+            if v == 0:
+                cls.append(cur)
+                cur = []
+            elif abs(v) <= n:
+                cur.append(v)
+            else:
+                return None
+    if n is None or cur or m != len(cls):
+        return None
+    return n, cls
+
+
 # --------------------------------------------------------------------------
 # the run
 # --------------------------------------------------------------------------
@@ -448,7 +487,7 @@ def run_files_pipeline(ctx):
         cs['files'][token] = text
 
     # ---- cnfgen <family> <file>: valid texts
-    for i in range(420 if quick else 3800):
+    for i in range(330 if quick else 3000):
         c = gen_command(rng)
         kind = c['kind']
         fmt = rng.choice(FORMATS[kind])
@@ -463,7 +502,7 @@ def run_files_pipeline(ctx):
             cs['argv'] = cs['argv'][:1] + ['-of', rng.choice(['opb', 'dimacs'])] + cs['argv'][1:]
             cs['fmt_out'] = cs['argv'][2]
     # ---- malformed texts
-    for i in range(480 if quick else 4500):
+    for i in range(380 if quick else 3600):
         c = gen_command(rng)
         c['chain'] = c['chain'] if rng.random() < 0.2 else []
         kind = c['kind']
@@ -476,7 +515,7 @@ def run_files_pipeline(ctx):
         place(cs, tok, cs['text'])
         cs['argv'] = graph_argv(rng, c, ([fmt] if explicit else []) + [tok])
     # ---- the wrong file, the wrong format, the wrong type
-    for i in range(150 if quick else 1300):
+    for i in range(120 if quick else 1300):
         c = gen_command(rng)
         c['chain'] = []
         kind = c['kind']
@@ -534,7 +573,7 @@ def run_files_pipeline(ctx):
             spec = [tok] + rng.choice([['save', 'out.kthlist'], ['plantclique', '2'], ['addedges', '1'], ['x'], ['3'], ['--zzz']])
         cs['argv'] = graph_argv(rng, c, spec)
     # ---- kthlist2pebbling, and `peb` on the same file
-    for i in range(260 if quick else 2400):
+    for i in range(200 if quick else 2000):
         G = gen_graph(rng, 'dag', nmax=7)
         text = w_kthlist(rng, 'dag', G, plain=rng.random() < 0.4)
         stream = 'k2p-valid'
@@ -587,7 +626,7 @@ def run_files_pipeline(ctx):
                                  ['-q', '--zzz'], ['-q', 'exact', '2', '1'], ['-q', 'exact', '2'], ['-q', '-i', 'g.kthlist', 'lift', '2'], ['-q', '', '2'], ['-q', '-i', '', 'xor', '1'],
                                  ['-q', 'shuffle'], ['-q', '-h'], ['-q', '-o', 'out.cnf'], ['-i', 'g.kthlist'], [], ['-q', '-i', 'g.kthlist', 'xor', '-1'], ['-q', 'maj', '+2']])
     # ---- cnfgen dimacs
-    for i in range(260 if quick else 2400):
+    for i in range(200 if quick else 2000):
         text = gen_cnf_text(rng)
         stream = 'dimacs-valid'
         if rng.random() < 0.45:
@@ -728,6 +767,10 @@ def run_files_pipeline(ctx):
             ctx.violation('correspondence', 'the tool did not finish within the time limit on an input the model calls small', replay, False, site=site, cls='timeout')
         elif 'Traceback' in (r['err'] or ''):
             ctx.violation('counterexample', '%s ends in a Python traceback (%s)' % (cs['tool'], r['err'].strip().split('\n')[-1][:120]), replay, True, site=site, cls=cl)
+        elif cs['what'] == 'dimacs' and cs['stream'] in ('dimacs-valid', 'dimacs-malformed') and r['rc'] == 0 and dimacs_judge(delivered(cs)) is None:
+            ctx.violation('counterexample', '`cnfgen dimacs` accepts a text that is not a well-formed DIMACS file (declared counts, ranges, termination)', replay, True, site=site, cls=cl)
+        elif cs['what'] == 'dimacs' and cs['stream'] in ('dimacs-valid', 'dimacs-malformed') and r['rc'] != 0 and dimacs_judge(delivered(cs)) is not None:
+            ctx.violation('counterexample', '`cnfgen dimacs` rejects a well-formed DIMACS file', replay, True, site=site, cls=cl)
         elif lib_res is not None and lib_res[0] == 'ok' and r['rc'] == 0 and r['out'] != lib_res[1] and cs.get('fmt_out') != 'opb':
             ctx.violation('counterexample', 'the tool writes a formula that differs from the documented generator on the graph the library reader returns for the same text', replay, True,
                           site=site, cls=cl)
